@@ -86,7 +86,8 @@ theorem extract_lo (x : BitVec 128) : BitVec.extractLsb' 0 64 x = lo64 x := rfl
 /-- Closes `join A B = join A' B'` (or an equation of 128-bit XOR/AND terms) up to
 associativity/commutativity, so that the ties survive a reordering of operands in the Go source. -/
 macro "join_ac" : tactic =>
-  `(tactic| first | rfl | ac_rfl | (rw [join_inj]; constructor <;> first | rfl | ac_rfl))
+  `(tactic| first | with_reducible rfl | ac_rfl
+                  | (rw [join_inj]; constructor <;> first | with_reducible rfl | ac_rfl))
 
 theorem tie_Xor (l o : Gen.Label) : joinL (Label.Xor l o) = joinL l ^^^ joinL o := by
   simp only [Label.Xor, joinL, join_xor] <;> join_ac
@@ -290,6 +291,35 @@ theorem tie_SetBit (l : Gen.Label) (i b : BitVec 64) :
       · by_cases hb1 : b = 1#64
         · simp [hb1, h63, h64, show i.toNat < 64 by omega, join_or]
         · simp [hb0, hb1]
+
+
+/-! ### `for i := A; i < B; i++` loops: generated as folds over `List.range` -/
+
+/-- A fold over `List.range n` computes `g n` when `g` satisfies the step equation below `n`. -/
+theorem foldl_range_eq {σ : Type} (f : σ → Nat → σ) (g : Nat → σ) (n : Nat) (init : σ) (h0 : g 0 = init)
+    (hs : ∀ k, k < n → f (g k) k = g (k + 1)) : (List.range n).foldl f init = g n := by
+  induction n with
+  | zero => simpa using h0.symm
+  | succ m ih =>
+    rw [List.range_succ, List.foldl_append, ih (fun k hk => hs k (by omega))]
+    simpa using hs m (by omega)
+
+theorem ofNat_up_toNat (k : Nat) (hk : k < 2^64) : (BitVec.ofNat 64 (0 + k)).toNat = k := by
+  simp only [BitVec.toNat_ofNat]; omega
+theorem ofNat_up_eq_zero (k : Nat) (hk : k < 2^64) : (BitVec.ofNat 64 (0 + k) == 0#64) = decide (k = 0) := by
+  rw [Bool.eq_iff_iff]; simp only [beq_iff_eq, decide_eq_true_eq]
+  constructor
+  · intro h; have := congrArg BitVec.toNat h; rw [ofNat_up_toNat k hk] at this; simpa using this
+  · rintro rfl; rfl
+theorem sub_up_toNat (c k : Nat) (hc : c < 2^64) (hk : k ≤ c) :
+    (BitVec.ofNat 64 c - BitVec.ofNat 64 (0 + k)).toNat = c - k := by
+  simp only [BitVec.toNat_sub, BitVec.toNat_ofNat]; omega
+theorem and_one_ne_zero (d : BitVec 64) (n : Nat) : ((d >>> n) &&& 1#64 != 0#64) = d.getLsbD n := by
+  rw [and_one]; cases d.getLsbD n <;> decide
+theorem and_one_eq_zero (d : BitVec 64) (n : Nat) : ((d >>> n) &&& 1#64 == 0#64) = !d.getLsbD n := by
+  rw [and_one]; cases d.getLsbD n <;> decide
+theorem and_one_eq_one (d : BitVec 64) (n : Nat) : ((d >>> n) &&& 1#64 == 1#64) = d.getLsbD n := by
+  rw [and_one]; cases d.getLsbD n <;> decide
 
 
 /-! ### The same ties with the model's `Nat` tweak, for `t < 2^32` -/
